@@ -184,6 +184,40 @@ CLAIMED['C03'] = dict(
     technique='Lean 4 exhaustive case proof over a transition model with one injected fault + fault enumeration on the real code',
     design='6/C03')
 
+CLAIMED['C07'] = dict(
+    text='Theorems C07_load_save (load (save v) = v for every savable persisted view, with the default or a custom object loader, '
+         'whether or not the load is given the loader, through each of the three media), C07_save_load_save (saving the loaded '
+         'process gives the identical bundle), C07_load_observes (pid, state, inputs, outputs, context, status, paused flag, creation '
+         'time, outcome are functions of the restored view) and C07_members_cover (the member sets and hand-written keys generated '
+         'from the source are exactly what the view carries: the obligation that breaks when a member set changes). The stepper '
+         'state of a work chain is restored at any nesting depth (structural induction). Snapshots of real processes at every '
+         'state entry and every paused point are sent through deepcopy, pickle and YAML with three loader configurations and '
+         'compared key by key with the model bundle and with the re-loaded view; Python monitors check re-save equality and all accessors.',
+    note='Modelled, not verified: Savable.save/load/save_members/_get_value, SavableFuture, EventHelper, Process.save/load_instance_state, '
+         'every state class, ContextMixin, WorkChain and the steppers as the hand-written Lean model Persist (member sets, keys, base '
+         'chains, META constants, loader ids regenerated from the source on every run). copy.deepcopy / pickle / PyYAML are trusted '
+         '(identity on plain values in the model) and exercised through the real libraries. The traceback text of an EXCEPTED state is '
+         'excluded (property text). Views with live awaitables are unsavable in model and code alike (counted, not failures).',
+    technique='Lean 4 round-trip proof over a table-driven persistence model (structural induction over stepper states) + key-by-key '
+              'differential correspondence on snapshots of generated programs through three media',
+    design='6/C07')
+
+CLAIMED['C08'] = dict(
+    text='On the outline-chain model (the stepper model that C09 proves to refine structured programs, with the stepper persistence of '
+         'C07): C08_stepper_restore (a restored stepper is the same state and denotes the same remaining program), '
+         'C08_persisted_determines_future, C08_resume_equiv (for ANY list of crash points, by induction, the crash-restore chain gives '
+         'the result and final world = call trace and context of the uninterrupted chain), C08_no_reexecution_no_skip. For plain '
+         'processes C08_continuation_persisted shows that run function, args, kwargs, callback, outputs, inputs survive save/load; its '
+         'composition with C13 is decided by the correspondence, not by a theorem. Real crash-restore chains (every subset of <= M '
+         'step boundaries, each restore in a fresh event loop, resume values replayed) are compared with the uninterrupted run and, '
+         'for outlines, with the model.',
+    note='Modelled, not verified: WorkChain._do_step, the steppers and their save/recreate as Lean model (Outline + Persist); the world of '
+         'the chain model is the persisted context, handed over a crash unchanged (C07). Process machinery around a step is C13/C05. '
+         'The abandoned instance is not killed but ignored (its task is cancelled and its loop closed).',
+    technique='Lean 4 induction over crash-point lists on the outline-chain model with stepper persistence + crash/restore '
+              'differential runs on generated processes and outlines',
+    design='6/C08')
+
 PENDING_REASON = 'check not built yet in this revision (planned: Lean model + correspondence, see DESIGN.md section 6)'
 
 
